@@ -339,7 +339,7 @@ func abStrings(maxLen int) []string {
 func TestC17Exhaustive(t *testing.T) {
 	run := h.Begin("C17", "exhaustive", "all s in {a,b}^<=6 (quick <=5) x t in {a,b}^<=3 x every position n,i,j,l from -1 to len+2; oracle: naive loops; non-trivial: needle occurs twice or at both ends, or a position on/over a boundary")
 	defer run.End(t)
-	ss := abStrings(h.N(5, 6))
+	ss := abStrings(h.N(5, 7))
 	ts := abStrings(3)
 	var idx int64
 	for _, s := range ss {
@@ -440,7 +440,7 @@ func byteCut(s string, at int) int {
 func TestC17Random(t *testing.T) {
 	run := h.Begin("C17", "random", "rapid: s over small alphabets incl. multi-byte, NUL and regexp metacharacters; t drawn as prefix/suffix/middle/unrelated; positions -3..len+3; oracle: naive loops, unicode.ToLower/ToUpper, Go regexp for RE2 agreement; non-trivial as in the exhaustive part or multi-byte s")
 	defer run.End(t)
-	h.RapidSetup(h.N(3000, 200000), "c17")
+	h.RapidSetup(h.N(3000, 1000000), "c17")
 	rapid.Check(t, func(rt *rapid.T) {
 		c := genC17(rt)
 		key, _ := json.Marshal(c)
